@@ -290,6 +290,13 @@ func streamC09gw(env *runEnv) {
 	case total < 16*per*9/10:
 		obs = fmt.Sprintf("only-%d-of-%d-requests-served", total, 16*per)
 	}
+	if strings.Contains(lg, "WARNING: DATA RACE") {
+		// the binary was built with -race: name the first gateway or main function of the report
+		obs = "race-reported-by-the-binary"
+		if m := regexp.MustCompile(`(?s)WARNING: DATA RACE.*?\n\s+(main\.[A-Za-z0-9_.()*]+|github\.com/bolkedebruin/rdpgw/[A-Za-z0-9_./()*]+)\(`).FindStringSubmatch(lg); m != nil {
+			obs += ":" + m[1][strings.LastIndex(m[1], "/")+1:]
+		}
+	}
 	if m := regexp.MustCompile(`fatal error: ([a-z][a-z ]*[a-z])`).FindStringSubmatch(lg); m != nil {
 		obs = "process-aborted-" + strings.ReplaceAll(m[1], " ", "-")
 	}
